@@ -23,6 +23,12 @@ K("awkward_ListArray_getitem_next_at",
 K("awkward_ListArray_min_range",
   requires=["lenstarts >= 1"],
   extents={"fromstarts": "lenstarts", "fromstops": "lenstarts"},
+  # C09 (pad_none without clip decides from the shortest list whether anything has to be padded): the result is a
+  # lower bound of every list's length and is the length of one of the lists -- every list, the last included
+  loops={"L0": ["1 <= i", "i <= lenstarts", "forall(q, 0, i, shorter <= fromstops[q] - fromstarts[q])",
+                "exists(q, 0, i, shorter == fromstops[q] - fromstarts[q])"]},
+  ensures_ok=["forall(q, 0, lenstarts, tomin[0] <= fromstops[q] - fromstarts[q])",
+              "exists(q, 0, lenstarts, tomin[0] == fromstops[q] - fromstarts[q])"],
   per_spec={"U32": {"requires": [LE("fromstarts", "fromstops", "lenstarts")]}},
   notes="reads element 0: lenstarts >= 1 is a precondition (checked at the call site by Engine G)",
   serves=["C09", "C12", "C13"])
